@@ -227,7 +227,20 @@ class TreeFx:
                         changed |= bind(t, s)
                 elif isinstance(n, (ast.For, ast.comprehension)):
                     changed |= bind(n.target, root_of(n.iter))
-                elif isinstance(n, ast.Call):
+                elif isinstance(n, ast.AugAssign) and isinstance(n.target, ast.Name):
+                    changed |= bind(n.target, root_of(n.value))
+                if isinstance(n, ast.Assign):
+                    # what is stored into a local container is reachable from it
+                    for t in n.targets:
+                        if isinstance(t, ast.Subscript) and isinstance(t.value, ast.Name):
+                            changed |= bind(t.value, root_of(n.value) - {"F"})
+                if isinstance(n, ast.Call) and isinstance(n.func, ast.Attribute) and isinstance(n.func.value, ast.Name) and n.func.value.id in local_names \
+                        and n.func.attr in ("append", "insert", "extend", "add", "update", "setdefault", "appendleft", "extendleft"):
+                    s = set()
+                    for a in n.args:
+                        s |= root_of(a)
+                    changed |= bind(n.func.value, s - {"F"})
+                if isinstance(n, ast.Call):
                     for tg in self.w.resolve_call(ft, n):
                         if tg.func is None:
                             continue
